@@ -128,7 +128,11 @@ def build_operand(d, env):
         from furax.toast.obs_matrix import ToastObservationMatrixOperator
 
         if _tmpdir is None:
+            import atexit
+            import shutil
+
             _tmpdir = tempfile.mkdtemp(prefix='c03obs')
+            atexit.register(shutil.rmtree, _tmpdir, True)
         c = sp.csr_matrix(np.array(d['m'], dtype=np.float32))
         path = os.path.join(_tmpdir, f'obs{abs(hash(json.dumps(d["m"])))}.npz')
         np.savez(path, format='csr', data=c.data, indices=c.indices, indptr=c.indptr, shape=np.array(c.shape))
@@ -525,10 +529,10 @@ class Check(PropertyCheck):
             try:
                 obs = lib.canon(self.run_impl(c))
                 if self.oracle(c, obs):
-                    return self.shrink(c, failing, depth + 1)
+                    return self.shrink(lib.pub(c), failing, depth + 1)
             except Exception:
                 continue
-        return case
+        return lib.pub(case)
 
     # -- oracle -----------------------------------------------------------------------------------
     def oracle(self, case, obs):
